@@ -538,7 +538,7 @@ def plan(ctx):
         step = nch // parts
         for p in range(parts):
             jobs.append((f"all/k{p}", dict(schemes=ALL, shapes=SHAPES_T + BIG_T, klo=p * step + 1, khi=(p + 1) * step, seed=seed,
-                                           ndata=ndata, qs=qs, decqs=dq, hist_every=10, hist_deep=4)))
+                                           ndata=ndata, qs=qs, decqs=dq, hist_every=35, hist_deep=4)))
         # larger entries (|h|^2 <= 5) where the arithmetic stays inside 32 bits: Nt <= 2
         sh2 = [s for s in SHAPES_T if s[1] <= 2]
         qs2 = [[1, 4, 16]] * 4
